@@ -27,10 +27,10 @@ struct Ck
 enum
 {
     S_CATC = 1, S_CATC_, S_CATN, S_CATN_, S_CATS, S_CATS_, S_CAT, S_CAT_, S_GETC, S_GETC_, S_GETN, S_GETN_,
-    S_RTRIM, S_RTRIM_, S_LTRIM, S_LTRIM_, S_TRIM, S_TRIM_, S_SETN, S_SETN_, S_SETM, S_EXIT, S_SWAP, S_UTF_CATC, S_UTF_LEN, S_CATF, S_ACCESS, S_SETM_RAW
+    S_RTRIM, S_RTRIM_, S_LTRIM, S_LTRIM_, S_TRIM, S_TRIM_, S_SETN, S_SETN_, S_SETM, S_EXIT, S_SWAP, S_UTF_CATC, S_UTF_LEN, S_CATF, S_ACCESS, S_SETM_RAW, S_DIE
 };
 static const char *s_names[] = {"?", "catc", "catc_", "catn", "catn_", "cats", "cats_", "cat", "cat_", "getc", "getc_", "getn", "getn_",
-                                "rtrim", "rtrim_", "ltrim", "ltrim_", "trim", "trim_", "setn", "setn_", "setm", "exit", "swap", "utf_catc", "utf_len", "catf", "access", "setm_"};
+                                "rtrim", "rtrim_", "ltrim", "ltrim_", "trim", "trim_", "setn", "setn_", "setm", "exit", "swap", "utf_catc", "utf_len", "catf", "access", "setm_", "die"};
 static bool terminating(int code)
 {
     switch (code)
@@ -592,6 +592,27 @@ struct Harness
     bool armed_from = false;
     void expand_faults(const std::string &key, xs::Sink &out)
     {
+        // destruction (and the hand-over of a terminated string) while the allocator refuses everything: neither needs memory
+        {
+            xs::Op tag{S_DIE, 0, 0, 0};
+            if (out.enter(tag))
+            {
+                Live L;
+                make(L, key);
+                Ck ck;
+                ++fault_runs;
+                shim::arm(0, true);
+                a_str_die(L.s);
+                shim::disarm();
+                L.s = nullptr;
+                if (L.aux) { a_str_die(L.aux); L.aux = nullptr; }
+                if (shim::st().live_blocks != 0) { ck.fail("leak", std::to_string(shim::st().live_blocks) + " block(s) still allocated after the string was destroyed"); }
+                else if (!shim::st().error.empty()) { ck.fail("memory", shim::st().error); }
+                out.leave();
+                if (!ck.ok()) { out.viol(tag, std::string("str|die|oom@all|") + ck.cls, "every allocation request fails during the destruction of " + key_str(key) + ": " + ck.err); }
+                else { out.succ(tag, key, "oom", "die"); }
+            }
+        }
         for (const xs::Op &o : menu(key))
         {
             long requests;
